@@ -29,9 +29,12 @@ HARNESSES += [H(f"c10_files_in_order_k{k:02d}", functions=[F + "next", P + "Dese
 HARNESSES += [H(f"c10_shape_fit_k{k:02d}", functions=[P + "DeserializeFilesOrField::deserialize_option", P + "DeserializeFilesOrField::deserialize_map", P + "DeserializeFilesOrField::deserialize_str", F + "next"],
                 clauses=["Option<File>: None for an empty file input, Some(the file) for one, error for several", "File: the file for exactly one, error otherwise", "file part into a text target and text field into a file target: error, never a wrong value"],
                 bound=f"{['an empty file input', 'one file', 'two files'][k]} (symbolic 1-byte filename / content)", **G) for k in range(3)]
+CT = ['(empty)', 'a', 'a CR', 'CR', 'CRLF', 'a CRLF b', '--', 'a--b', 'LF', 'CR CR']
+HARNESSES += [H(f"c10_parse_concrete_k{k:02d}", functions=[F + "parse"], clauses=["a file part with this content followed by a text field: both parts found, file content byte-exact, text field intact"],
+                bound=f"ONE concrete two-part body, file content = {CT[k]}", crate="ohkami_lib", strength="bounded", tier="quick", timeout=900, expect_covers=False) for k in range(10)]
 HARNESSES += [H("c10_parse_three_files_template", functions=[F + "parse"], clauses=["parts are kept in submission order (a text field and three files under one name)"],
                 bound="ONE concrete conforming body (no symbolic byte): a symbolic execution of the real parser, not a quantified statement",
-                crate="ohkami_lib", strength="bounded", tier="thorough", timeout=1200, expect_covers=False)]
+                crate="ohkami_lib", strength="bounded", tier="quick", timeout=900, expect_covers=False)]
 JOBS = 6
 TRUSTED = ["byte_reader 3.1.1 executed symbolically, not specified", "ASSUMED CONTRACT: core::str::from_utf8 (spec/utf8.rs)"]
 ASSUMPTIONS = ["fixed boundary `b`, fixed names; forms of one part only; parser templates with non-empty symbolic content are not decided by CBMC within the limit (thorough tier, attempts); the struct-level glue of from_bytes::<T> (serde-derived field dispatch of the target struct) is NOT under a discharged contract; File's own derived Deserialize is executed"]
